@@ -59,8 +59,8 @@ fn king_table_matches_spec() {
     assert!(table[i].0 == king_attacks_spec(i));
 }
 
-/// Discharges assumption A-ordered of contracts/u4_magic.vrs: ORDERED_SQUARES lists every square exactly once,
-/// file-major (A1, A2, .., A8, B1, ..): entry j is the square with index (j % 8) * 8 + j / 8.
+/// Cross-check of `lemma_ordered_squares` (contracts/u4_ordered.vrs, used by make_table's proof): ORDERED_SQUARES lists
+/// every square exactly once, file-major (A1, A2, .., A8, B1, ..): entry j is the square with index (j % 8) * 8 + j / 8.
 #[kani::proof]
 fn ordered_squares_file_major() {
     let j: usize = kani::any();
